@@ -113,11 +113,19 @@ thread_local! {
     pub static SCRIPT: RefCell<Option<Rc<Program>>> = const { RefCell::new(None) };
     pub static TRACE: RefCell<Vec<TraceRec>> = const { RefCell::new(Vec::new()) };
     pub static WATCH: RefCell<Rc<Watch>> = RefCell::new(Rc::new(Watch::default()));
+    /// error texts handed to reply entry points since the last `set_script` (C19 only: C03 says
+    /// nothing about the text)
+    pub static REPLY_ERRS: RefCell<Vec<String>> = const { RefCell::new(Vec::new()) };
+}
+
+pub fn take_reply_errs() -> Vec<String> {
+    REPLY_ERRS.with(|t| std::mem::take(&mut *t.borrow_mut()))
 }
 
 pub fn set_script(p: Rc<Program>) {
     SCRIPT.with(|s| *s.borrow_mut() = Some(p));
     TRACE.with(|t| t.borrow_mut().clear());
+    REPLY_ERRS.with(|t| t.borrow_mut().clear());
 }
 
 pub fn take_trace() -> Vec<TraceRec> {
@@ -356,7 +364,10 @@ impl Contract<Empty, Empty> for Puppet {
                 #[allow(deprecated)]
                 data: r.data.as_ref().map(|d| d.to_vec()),
             },
-            SubMsgResult::Err(_) => ReplyRec { id: msg.id, payload: msg.payload.to_vec(), ok: false, events: vec![], data: None },
+            SubMsgResult::Err(text) => {
+                REPLY_ERRS.with(|t| t.borrow_mut().push(text.clone()));
+                ReplyRec { id: msg.id, payload: msg.payload.to_vec(), ok: false, events: vec![], data: None }
+            }
         };
         self.run(EntryKind::Reply, deps, env, None, node, Some(rr))
     }
